@@ -14,5 +14,14 @@ for P in $PIDS; do
   RC=$?
   SIG=$(echo "$OUT" | grep -m1 "^FAIL" | sed 's/.*sig=\[\([^]]*\)\].*/\1/')
   echo "$NAME vs $P: exit=$RC ${SIG:+sig=[$SIG]}"
+  python3 - "$D/meta.json" "$P" "$RC" "$SIG" <<'PY'
+import json,sys
+f,p,rc,sig=sys.argv[1:5]
+m=json.load(open(f))
+d=m.get("detected_by") or {}
+d[p]={"quick_exit":int(rc),"signature":sig} if int(rc)==1 else {"quick_exit":int(rc),"signature":None}
+m["detected_by"]=d
+json.dump(m,open(f,"w"),indent=1)
+PY
 done
 git -C /repo checkout -- .
